@@ -458,6 +458,10 @@ pub fn run(tier: &str, seed: i64) -> Outcome {
         Space::slice(Universe::U4 { a: code(Q, true), b: code(B, false), files: None }, if q { 192 } else { 6 }, off),
         Space::slice(Universe::U4 { a: code(Q, true), b: code(R, false), files: None }, if q { 192 } else { 6 }, off),
         Space::slice(Universe::U4 { a: code(Q, false), b: code(N, true), files: None }, if q { 192 } else { 6 }, off),
+        Space::slice(Universe::UZ { a: B, b: B, d: N }, if q { 384 } else { 6 }, off),
+        Space::slice(Universe::UZ { a: B, b: N, d: N }, if q { 768 } else { 6 }, off),
+        Space::slice(Universe::UZ { a: R, b: N, d: N }, if q { 768 } else { 6 }, off),
+        Space::slice(Universe::UZ { a: R, b: B, d: B }, if q { 768 } else { 6 }, off),
     ];
     let (acc, reports) = run_spaces(&spaces, &|ctx, acc| {
         // kinds that cannot mate with a bare king are classified too (they yield only stalemates): keep Q, R, P and all UC/U4 members
@@ -475,7 +479,9 @@ pub fn run(tier: &str, seed: i64) -> Outcome {
             }
             let class = classify(ctx.pos, &mut s);
             acc.count(&format!("class {:?}", class));
-            if class != Class::Other {
+            // the zugzwang family is there for its mates in two (and dead positions); its many mates in one add nothing
+            let skip = ctx.space.starts_with("UZ") && class == Class::MateIn1;
+            if class != Class::Other && !skip {
                 check_root(ctx.pos, class, &mut s, acc);
                 check_root_with_history(ctx.pos, class, acc);
                 if acc.samples.len() < 3 {
